@@ -3420,9 +3420,10 @@ class SQLCompiler(Compiled):
             # expressions to render.
 
             if typ_dialect_impl._is_tuple_type:
-                replacement_expression = (
-                    "VALUES " if self.dialect.tuple_in_values else ""
-                ) + self.visit_empty_set_op_expr(
+                # no "VALUES" keyword here: the empty set expression is
+                # a complete subquery / expression, as in
+                # _literal_execute_expanding_parameter()
+                replacement_expression = self.visit_empty_set_op_expr(
                     parameter.type.types, parameter.expand_op
                 )
 
